@@ -231,6 +231,8 @@ func cliJSON(c *core.Ctx, runner *cli.Runner, id string, rng *rand.Rand) {
 				switch {
 				case why == "missing-key" && i < preview:
 					key = "json-preview-missing-key-not-nullable"
+				case i < preview:
+					key = "json:preview-row-not-covered-by-inferred-type"
 				case strings.HasSuffix(why, "object-new-field"):
 					key = "json-object-new-field-dropped"
 				}
@@ -345,6 +347,8 @@ func cliCSV(c *core.Ctx, runner *cli.Runner, id string, rng *rand.Rand) {
 			desc := fmt.Sprintf("row %d column %s (%s): cell %q printed as %v", i, n, fileh.TypeText(t), cell, dv)
 			s, isStr := dv.(string)
 			switch {
+			case !rep && i < preview:
+				add("csv:preview-row-not-covered-by-inferred-type", desc)
 			case !rep && why == "empty":
 				if dv == nil {
 					add("csv-empty-cell-nonnullable-null", desc)
